@@ -271,6 +271,20 @@ def check_dispatch(ctx, rep):
         raise AnalysisBroken('raid_mode: expected two (slot, matrix) pairings')
 
 
+def check_mode_order(ctx, rep, rid):
+    """the matrix/slot-2 selection must use the configured mode: raid_mode(state.raid_mode) after state_config, before any command body"""
+    P = ctx.prog
+    m = P.fn('main')
+    rep.rule(rid, 'main: raid_init, then state_config, then raid_mode(state.raid_mode), before any command body', 2)
+    rm = list(m.calls('raid_mode')); sc = list(m.calls('state_config')); ri = list(m.calls('raid_init'))
+    ok = len(rm) == 1 and len(sc) == 1 and len(ri) == 1 and m.dominates(sc[0], rm[0]) and m.dominates(ri[0], rm[0]) and m.expr(rm[0].ops[0]).endswith('state.raid_mode')
+    rep.check(ok, rid, 'raid_mode(state.raid_mode) is dominated by state_config and raid_init', rm[0].loc() if rm else m.file, '', function='main', construct='mode after config')
+    bodies = list(m.calls({'state_sync', 'state_check', 'state_scrub', 'state_dry', 'state_rehash'}))
+    ok2 = bool(rm) and bool(bodies) and all(m.dominates(rm[0], b) for b in bodies)
+    rep.check(ok2, rid, 'raid_mode dominates every command body that computes parity', m.file, '%d bodies' % len(bodies), function='main', construct='mode before bodies')
+    rep.analysed(m)
+
+
 def run(ctx, rep):
     rep.level = 'proof'
     rep.trusted_base = ['clang-14 lowering of C and inline asm to LLVM IR (-O0, mem2reg, simplifycfg)',
@@ -284,4 +298,5 @@ def run(ctx, rep):
     check_tables(ctx.raid, rep)
     check_kernels(ctx, rep)
     check_dispatch(ctx, rep)
+    check_mode_order(ctx, rep, 'R-C02-8')
     rep.extra['exhaustive'] = ctx.tier == 'thorough'
